@@ -26,6 +26,9 @@ pub enum CompilerError {
     InvalidLiteralType(Literal, Type),
     /// The constant was declared in the program but not provided during compilation.
     MissingConstant(String, String, MetaInfo),
+    /// The parameters of the specified function have a total size of 0 bits (e.g. an array whose
+    /// size is a constant that was set to 0), so that the circuit would have no input wires.
+    ZeroSizedInputs(String),
 }
 
 impl PartialOrd for CompilerError {
@@ -53,6 +56,11 @@ impl Ord for CompilerError {
                 CompilerError::MissingConstant(_, _, meta1),
                 CompilerError::MissingConstant(_, _, meta2),
             ) => meta1.cmp(meta2),
+            (CompilerError::ZeroSizedInputs(fn1), CompilerError::ZeroSizedInputs(fn2)) => {
+                fn1.cmp(fn2)
+            }
+            (CompilerError::ZeroSizedInputs(_), _) => std::cmp::Ordering::Greater,
+            (_, CompilerError::ZeroSizedInputs(_)) => std::cmp::Ordering::Less,
             (CompilerError::MissingConstant(_, _, _), _) => std::cmp::Ordering::Greater,
         }
     }
@@ -69,6 +77,9 @@ impl std::fmt::Display for CompilerError {
             }
             CompilerError::MissingConstant(party, identifier, _) => f.write_fmt(format_args!(
                 "The constant {party}::{identifier} was declared in the program but never provided"
+            )),
+            CompilerError::ZeroSizedInputs(fn_name) => f.write_fmt(format_args!(
+                "The parameters of function '{fn_name}' have a total size of 0 bits"
             )),
         }
     }
@@ -243,6 +254,11 @@ impl TypedProgram {
                 input_gates.push(type_size);
                 env.let_in_current_scope(param.name.clone(), wires);
             }
+        }
+        if input_gates.iter().sum::<usize>() == 0 {
+            // A circuit without input wires cannot be evaluated (wires 0 and 1 are derived from
+            // the first input wire).
+            return Err(vec![CompilerError::ZeroSizedInputs(fn_name.to_string())]);
         }
         let builder_opts = CircuitBuilderOptions {
             cache_gates: opts.optimize_duplicate_gates,
